@@ -82,7 +82,7 @@ Opts(single, indent, spec) ==
   [sorted_fields |-> FALSE, sorted_arguments |-> FALSE, sorted_enum_items |-> FALSE, federation |-> FALSE,
    prefer_single_line_descriptions |-> single, include_specified_by |-> spec, compose_directive |-> FALSE, indent |-> indent]
 Emit ==
-  /\ (n # 0 \/ PrintT(<<"BASE", ToJson(Base("none", <<>>))>>))      \* the base type system itself, for the option sweep
+  /\ (IF n # 0 THEN TRUE ELSE PrintT(<<"BASE", ToJson(Base("none", <<>>))>>))      \* the base type system itself, for the option sweep
   /\ \A slot \in DescSlots : \A single \in BOOLEAN : \A indent \in (IF single THEN {0} ELSE {0, 2}) :
        PrintT(<<"REPLAY", ToJson([slot |-> slot, opts |-> Opts(single, indent, FALSE), ts |-> Base(slot, text)])>>)
   /\ \A slot \in OtherSlots :
